@@ -76,10 +76,14 @@ def gen_case(seed, i, engine, n_ops):
             shadow.pop(k, None)
         elif x < 0.97:
             a, b = sorted(r.sample(keys + [b"0", b"zzz"], 2))
-            if r.random() < 0.5:
+            y = r.random()
+            if y < 0.4:
                 lines.append("itdel %s %s %d" % (hx(a), hx(b), r.randint(0, 2)))
-            else:
+            elif y < 0.7:
                 lines.append("itdel %s %s %d rewrite=%s" % (hx(a), hx(b), r.randint(0, 1), hx(b"changed")))
+            else:
+                # the record under the iterator is removed before the compare-and-delete is evaluated
+                lines.append("itdel %s %s %d remove=1" % (hx(a), hx(b), r.randint(0, 1)))
             shadow = None or shadow
             lines.append("dump")
             # resync the shadow lazily: a dump follows; the generator's shadow may now be stale, which is fine
@@ -152,7 +156,13 @@ def oracle(case):
         elif t[0] == "itdel" and len(o) >= 3 and o[1] not in ("eof", "err"):
             k = unhx(o[1])
             rewritten = any(x.startswith("rewrite=") for x in t)
-            if rewritten:
+            if "remove=1" in t:
+                ref.pop(k, None)
+                if o[2] != "cf":
+                    return ("line %d: %s: the compare-and-delete of a record that was removed after it was read answered `%s` - "
+                            "a condition that does not hold must be reported as a failed condition, not as success or some other error"
+                            % (i + 1, line, " ".join(o[2:])[:120]), "delcurrent-of-removed-record-not-a-failed-condition")
+            elif rewritten:
                 newv = unhx([x for x in t if x.startswith("rewrite=")][0].split("=")[1])
                 same = ref.get(k) == newv   # a rewrite with identical bytes: value-comparing engines may delete
                 ref[k] = newv
@@ -473,6 +483,11 @@ def check(rep, tier, seed):
     n, n_ops = (60, 80) if tier == "quick" else (6000, 200)
     cases = [gen_case(seed, i, ENGINES[i % len(ENGINES)], n_ops) for i in range(n)]
     cases += [snapshot_case(seed, i, ENGINES[i % 3]) for i in range(3 if tier == "quick" else 120)]
+    # compare-and-delete of a record that was REMOVED (rewritten: the random scripts) after the iterator read it, on every
+    # engine configuration: a failed condition, never success and never some other error
+    for eng in ["memkv", "badger", "tikv", "metrics-tikv", "metrics-memkv", "metrics-badger"]:
+        cases.append(core.Case("engine", ["cfg engine=%s" % eng, "batch put:6b31:7631 put:6b32:7632 put:6b33:7633", "itdel 6b 6c 0 remove=1", "dump",
+                                          "itdel 6b 6c 1 remove=1", "dump", "itdel 6b 6c 0", "dump"], {"engine": eng}))
     # atomicity beyond the engine's per-transaction size limit (Badger: ~104857 entries): one batch of n puts whose
     # last operation fails its condition must leave nothing behind
     for eng, n_big in [("memkv", 2000), ("badger", 120000), ("metrics-badger", 120000)] + ([("tikv", 3000)] if tier != "quick" else []):
